@@ -4,7 +4,8 @@
    embedded/store: OngoingTx.set/Get/GetWithPrefix/key readers, checkPreconditions, indexer.indexSince).
 
    One table  t(id INTEGER [AUTO_INCREMENT] PRIMARY KEY, v INTEGER [NOT NULL], s VARCHAR[maxlen])
-   with optional CHECK (v >= 0), optional UNIQUE index on v, optional non-unique index on s.
+   with optional CHECK (v >= 0), optional UNIQUE index on (v) or composite on (v, s), optional
+   non-unique index on s.
 
    This file contains definitions only (no proofs).  The record [fixes] selects, per defect found by
    this check, between the code before its repair and the code with it: [fixed_code] is the code as
@@ -17,7 +18,8 @@ Open Scope N_scope.
 (* ---------- values, rows, table definition ---------- *)
 Inductive val := VNull | VInt (z : Z) | VStr (s : bytes).
 Record row := mkRow { r_v : val; r_s : val }.
-Record cfg := mkCfg { k_autoinc : bool; k_notnull : bool; k_maxlen : N; k_check : bool }.
+(* k_ucomp: the UNIQUE index, when created, is the composite one on (v, s) instead of the one on (v) *)
+Record cfg := mkCfg { k_autoinc : bool; k_notnull : bool; k_maxlen : N; k_check : bool; k_ucomp : bool }.
 Record fixes := mkFix { fx_unique : bool; fx_notnull : bool; fx_check : bool }.
 Definition old_code : fixes := mkFix false false false.
 Definition fixed_code : fixes := mkFix true true true.
@@ -96,8 +98,11 @@ Definition pfx_n : bytes := [77; 46; 0; 0; 0; 1; 0; 0; 0; 2].
 (* primary index entry: indexEntryMapperFor(primary, primary) *)
 Definition pkey (k : Z) : bytes := pfx_p ++ enc_int k ++ enc_int k.
 (* secondary index entry written by the indexer: prefix ++ encoded value ++ encoded pk *)
-Definition smkey_u (x : val) : bytes := pfx_u ++ enc_vkey x.
-Definition ukey (x : val) (k : Z) : bytes := smkey_u x ++ enc_int k.
+(* the value of a row under the UNIQUE index: (v) or (v, s) — the concatenation of the encoded columns *)
+Definition uval := (val * val)%type.
+Definition smkey_u (g : cfg) (x : uval) : bytes :=
+  pfx_u ++ enc_vkey (fst x) ++ (if k_ucomp g then enc_skey (k_maxlen g) (snd x) else []).
+Definition ukey (g : cfg) (x : uval) (k : Z) : bytes := smkey_u g x ++ enc_int k.
 Definition smkey_n (maxlen : N) (x : val) : bytes := pfx_n ++ enc_skey maxlen x.
 
 Definition has_prefix (p k : bytes) : bool :=
@@ -155,16 +160,18 @@ Definition entry := (N * bool)%type.
 (* indexer.indexSince with InjectiveMapping, for the unique index on v: entries produced by the
    versions of one primary key (newest first): the mapped key of every version, plus a tombstone
    on the previous version's mapped key when it differs *)
-Fixpoint u_entries (k : Z) (vs : list ver) : list (bytes * entry) :=
+Definition uvals (g : cfg) (r : row) : uval := (r_v r, if k_ucomp g then r_s r else VNull).
+Fixpoint u_entries (g : cfg) (k : Z) (vs : list ver) : list (bytes * entry) :=
   match vs with
   | [] => []
   | x :: older =>
-      (ukey (r_v (v_row x)) k, (v_tx x, v_del x)) ::
+      (ukey g (uvals g (v_row x)) k, (v_tx x, v_del x)) ::
       (match older with
-       | y :: _ => if bytes_eqb (ukey (r_v (v_row y)) k) (ukey (r_v (v_row x)) k) then []
-                   else [(ukey (r_v (v_row y)) k, (v_tx x, true))]
+       | y :: _ => (* a tombstoned previous version had its mapped key tombstoned when it was indexed *)
+                   if v_del y || bytes_eqb (ukey g (uvals g (v_row y)) k) (ukey g (uvals g (v_row x)) k) then []
+                   else [(ukey g (uvals g (v_row y)) k, (v_tx x, true))]
        | [] => []
-       end) ++ u_entries k older
+       end) ++ u_entries g k older
   end.
 (* newest entry of every key: first occurrences *)
 Fixpoint dedup (seen : list bytes) (es : list (bytes * entry)) : list (bytes * entry) :=
@@ -172,8 +179,8 @@ Fixpoint dedup (seen : list bytes) (es : list (bytes * entry)) : list (bytes * e
   | [] => []
   | e :: r => if existsb (bytes_eqb (fst e)) seen then dedup seen r else e :: dedup (fst e :: seen) r
   end.
-Definition uview (ts : N) (rows : list (Z * list ver)) : list (bytes * entry) :=
-  flat_map (fun kvs => dedup [] (u_entries (fst kvs) (vers_at ts (snd kvs)))) rows.
+Definition uview (g : cfg) (ts : N) (rows : list (Z * list ver)) : list (bytes * entry) :=
+  flat_map (fun kvs => dedup [] (u_entries g (fst kvs) (vers_at ts (snd kvs)))) rows.
 Definition pview (ts : N) (rows : list (Z * list ver)) : list (bytes * entry) :=
   flat_map (fun kvs => match vers_at ts (snd kvs) with
                        | v :: _ => [(pkey (fst kvs), (v_tx v, v_del v))]
@@ -334,13 +341,13 @@ Definition key_set (k : bytes) (transient : bool) (t : txs) : res txs :=
 
 (* ---------- uniqueness check of doUpsert ---------- *)
 (* as written: getWithPrefix(smkey) — first key under the value prefix only *)
-Definition check_unique_cur (c : cstate) (t : txs) (x : val) : res txs :=
-  let p := smkey_u x in
+Definition check_unique_cur (g : cfg) (c : cstate) (t : txs) (x : uval) : res txs :=
+  let p := smkey_u g x in
   let ts := usnap_ts c t in
   let t := touch_u c t in
   match klookup p (t_keys t) with
   | Some true => Err EExists                       (* the transient smkey itself is in the local snapshot *)
-  | _ => match get_live_with_prefix p (uview ts (c_rows c)) with
+  | _ => match get_live_with_prefix p (uview g ts (c_rows c)) with
          | Some _ => Err EExists
          | None => Ok (add_read (RPfx p None 0) t)
          end
@@ -353,26 +360,36 @@ Fixpoint scan_pfx (es : list (bytes * entry)) : list (eread bytes) * bool :=
       if del then let (rs, f) := scan_pfx r in (ERead k tx :: rs, f)
       else ([ERead k tx], true)
   end.
-Definition check_unique_fix (c : cstate) (t : txs) (x : val) : res txs :=
-  let p := smkey_u x in
+Definition check_unique_fix (g : cfg) (c : cstate) (t : txs) (x : uval) : res txs :=
+  let p := smkey_u g x in
   let ts := usnap_ts c t in
   let t := touch_u c t in
   match klookup p (t_keys t) with
   | Some true => Err EExists
-  | _ => let (rs, found) := scan_pfx (under p (uview ts (c_rows c))) in
+  | _ => let (rs, found) := scan_pfx (under p (uview g ts (c_rows c))) in
          if found then Err EExists else Ok (add_read (RScan p rs) t)
   end.
 Definition check_unique (fx : fixes) := if fx_unique fx then check_unique_fix else check_unique_cur.
 
 (* ---------- deprecateIndexEntries ---------- *)
 (* currVal.Compare(newVal) fails with ErrNotComparableValues when the new value has another type *)
+(* the columns of the UNIQUE index are compared one by one: an error as soon as a new value has
+   another type; the entry is kept ("sameIndexKey") only when ALL its columns are unchanged *)
+Definition ucols_same (g : cfg) (cur : row) (nv ns : val) : res bool :=
+  match nv with
+  | VStr _ => Err EType
+  | _ => if k_ucomp g then
+           match ns with
+           | VInt _ => Err EType
+           | _ => Ok (val_eqb (r_v cur) nv && val_eqb (r_s cur) ns)
+           end
+         else Ok (val_eqb (r_v cur) nv)
+  end.
 Definition deprecate (g : cfg) (t : txs) (cur : row) (nv ns : val) : res (txs * bool * bool) :=
   do tu <- (if t_uidx t then
-              match nv with
-              | VStr _ => Err EType
-              | _ => if val_eqb (r_v cur) nv then Ok (t, true)
-                     else do t' <- key_set (smkey_u (r_v cur)) false t; Ok (t', false)
-              end
+              do same <- ucols_same g cur nv ns;
+              if same then Ok (t, true)
+              else do t' <- key_set (smkey_u g (uvals g cur)) false t; Ok (t', false)
             else Ok (t, false));
   do tn <- (if t_nidx t then
               match ns with
@@ -398,7 +415,8 @@ Definition do_upsert (g : cfg) (fx : fixes) (c : cstate) (t : txs) (k : Z) (nv n
   do s' <- conv_s (k_maxlen g) ns;
   let t := set_rows (aset k (false, mkRow v' s') (t_rows t)) (touch_p c t) in
   do t <- (if t_uidx t && negb ru then
-             do t1 <- check_unique fx c t v'; key_set (smkey_u v') true t1
+             do t1 <- check_unique fx g c t (uvals g (mkRow v' s'));
+             key_set (smkey_u g (uvals g (mkRow v' s'))) true t1
            else Ok t);
   do t <- (if t_nidx t && negb rn then key_set (smkey_n (k_maxlen g) s') true t else Ok t);
   Ok t.
@@ -508,7 +526,7 @@ Definition cur_keys (lo hi : option Z) (desc : bool) (rows : list (Z * list ver)
   if desc then rev l else l.
 
 (* checkPreconditions on the current committed state *)
-Definition val_entry (c : cstate) (r : rentry) : bool :=
+Definition val_entry (g : cfg) (c : cstate) (r : rentry) : bool :=
   match r with
   | RGet k etx =>
       match lookup_pk k (c_rows c) with
@@ -516,17 +534,17 @@ Definition val_entry (c : cstate) (r : rentry) : bool :=
       | [] => etx =? 0
       end
   | RPfx p ek etx =>
-      match get_live_with_prefix p (uview (c_last c) (c_rows c)) with
+      match get_live_with_prefix p (uview g (c_last c) (c_rows c)) with
       | None => etx =? 0
       | Some (k, tx) => match ek with Some k' => bytes_eqb k k' && (etx =? tx) | None => false end
       end
   | RScan p reads =>
-      val_reads bytes_eqb reads None (map (fun ke => (fst ke, fst (snd ke))) (under p (uview (c_last c) (c_rows c))))
+      val_reads bytes_eqb reads None (map (fun ke => (fst ke, fst (snd ke))) (under p (uview g (c_last c) (c_rows c))))
   | RRange lo hi desc reads =>
       val_reads Z.eqb reads None (cur_keys lo hi desc (c_rows c))
   end.
-Definition validate (c : cstate) (t : txs) : bool :=
-  negb (t_catts t <? c_cat c) && forallb (val_entry c) (t_reads t).
+Definition validate (g : cfg) (c : cstate) (t : txs) : bool :=
+  negb (t_catts t <? c_cat c) && forallb (val_entry g c) (t_reads t).
 
 Definition apply_writes (c : cstate) (t : txs) : cstate :=
   match t_rows t with
@@ -537,10 +555,10 @@ Definition apply_writes (c : cstate) (t : txs) : cstate :=
   end.
 (* a transaction without entries returns ErrNoEntriesProvided from precommit before any
    precondition is checked; SQLTx.Commit treats that as success *)
-Definition commit (c : cstate) (t : txs) : res cstate :=
+Definition commit (g : cfg) (c : cstate) (t : txs) : res cstate :=
   match t_rows t with
   | [] => Ok c
-  | _ => if validate c t then Ok (apply_writes c t) else Err EConflict
+  | _ => if validate g c t then Ok (apply_writes c t) else Err EConflict
   end.
 
 (* CreateIndexStmt.execAt (autocommit).  UNIQUE: "check table is empty" *)
@@ -563,7 +581,7 @@ Inductive action :=
 | AStmt (s : stmt)           (* a statement inside the open transaction (autocommit when none is open) *)
 | ACommit | ARollback
 | AAuto (ss : list stmt)     (* Exec(nil, "s1; s2; ..."): one implicit transaction *)
-| ADdl (unique : bool).      (* CREATE [UNIQUE] INDEX as an autocommit statement *)
+| ADdl (unique : bool).      (* CREATE UNIQUE INDEX ON t(v) / t(v, s) (by k_ucomp), CREATE INDEX ON t(s): autocommit *)
 Definition event := (N * action)%type.
 Record state := mkS { s_c : cstate; s_tx : list (N * txs) }.
 Record out := mkOut { o_ok : bool; o_rows : list (Z * row) }.
@@ -575,7 +593,7 @@ Fixpoint sremove (sid : N) (l : list (N * txs)) : list (N * txs) :=
 
 Definition run_auto (g : cfg) (fx : fixes) (c : cstate) (ss : list stmt) : res cstate :=
   do t <- rfold (exec_stmt g fx c) ss (new_tx g c false);
-  commit c t.
+  commit g c t.
 
 Definition step (g : cfg) (fx : fixes) (st : state) (ev : event) : state * bool :=
   let sid := fst ev in
@@ -594,7 +612,7 @@ Definition step (g : cfg) (fx : fixes) (st : state) (ev : event) : state * bool 
       match run_auto g fx c ss with Ok c' => (mkS c' (s_tx st), true) | _ => (st, false) end
   | AAuto _, Some _ => (mkS c (sremove sid (s_tx st)), false)
   | ACommit, Some t =>
-      match commit c t with
+      match commit g c t with
       | Ok c' => (mkS c' (sremove sid (s_tx st)), true)
       | _ => (mkS c (sremove sid (s_tx st)), false)
       end
